@@ -62,6 +62,9 @@ pub struct CompactionStream<'a, I: Iterator<Item = Item>, F: StreamFilter = NoFi
     evict_tombstones: bool,
 
     zero_seqnos: bool,
+
+    /// Weak tombstone that survived the GC of its key's tail and is emitted next
+    pending: Option<InternalValue>,
 }
 
 impl<I: Iterator<Item = Item>> CompactionStream<'_, I, NoFilter> {
@@ -77,6 +80,7 @@ impl<I: Iterator<Item = Item>> CompactionStream<'_, I, NoFilter> {
             filter: NoFilter,
             evict_tombstones: false,
             zero_seqnos: false,
+            pending: None,
         }
     }
 }
@@ -91,6 +95,7 @@ impl<'a, I: Iterator<Item = Item>, F: StreamFilter + 'a> CompactionStream<'a, I,
             filter,
             evict_tombstones: self.evict_tombstones,
             zero_seqnos: self.zero_seqnos,
+            pending: self.pending,
         }
     }
 
@@ -114,27 +119,46 @@ impl<'a, I: Iterator<Item = Item>, F: StreamFilter + 'a> CompactionStream<'a, I,
     }
 
     /// Drains the remaining versions of the given key.
-    fn drain_key(&mut self, key: &UserKey) -> crate::Result<()> {
+    ///
+    /// Returns the (oldest) weak tombstone of the drained tail whose value was not part of the
+    /// tail: that value still sits in a lower level, so the weak tombstone may not vanish, or the
+    /// value would come back as soon as a later weak delete cancels out the current head.
+    fn drain_key(&mut self, key: &UserKey) -> crate::Result<Option<InternalValue>> {
+        let mut unmatched_weak_tombstone = None;
+
         loop {
             let Some(next) = self.inner.next_if(|kv| {
                 if let Ok(kv) = kv {
-                    let expired = kv.key.user_key == key;
-
-                    if expired {
-                        if let Some(watcher) = &mut self.dropped_callback {
-                            watcher.on_dropped(kv);
-                        }
-                    }
-
-                    expired
+                    kv.key.user_key == key
                 } else {
                     true
                 }
             }) else {
-                return Ok(());
+                return Ok(unmatched_weak_tombstone);
             };
 
-            next?;
+            let next = next?;
+
+            if next.key.value_type == ValueType::WeakTombstone {
+                if let Some(prev) = unmatched_weak_tombstone.replace(next) {
+                    if let Some(watcher) = &mut self.dropped_callback {
+                        watcher.on_dropped(&prev);
+                    }
+                }
+            } else {
+                if !next.is_tombstone() {
+                    // NOTE: The weak tombstone (if any) above this value cancels it out
+                    if let Some(prev) = unmatched_weak_tombstone.take() {
+                        if let Some(watcher) = &mut self.dropped_callback {
+                            watcher.on_dropped(&prev);
+                        }
+                    }
+                }
+
+                if let Some(watcher) = &mut self.dropped_callback {
+                    watcher.on_dropped(&next);
+                }
+            }
         }
     }
 }
@@ -170,6 +194,10 @@ impl<'a, I: Iterator<Item = Item>, F: StreamFilter + 'a> Iterator for Compaction
     type Item = Item;
 
     fn next(&mut self) -> Option<Self::Item> {
+        if let Some(item) = self.pending.take() {
+            return Some(Ok(item));
+        }
+
         loop {
             let mut head = fail_iter!(self.inner.next()?);
 
@@ -217,7 +245,7 @@ impl<'a, I: Iterator<Item = Item>, F: StreamFilter + 'a> Iterator for Compaction
                     // ...
                 } else if peeked.key.seqno < self.gc_seqno_threshold {
                     if head.key.value_type == ValueType::Tombstone && self.evict_tombstones {
-                        fail_iter!(self.drain_key(&head.key.user_key));
+                        let _ = fail_iter!(self.drain_key(&head.key.user_key));
                         continue;
                     }
 
@@ -236,7 +264,13 @@ impl<'a, I: Iterator<Item = Item>, F: StreamFilter + 'a> Iterator for Compaction
 
                     // NOTE: Next item is expired,
                     // so the tail of this user key is entirely expired, so drain it all
-                    fail_iter!(self.drain_key(&head.key.user_key));
+                    let unmatched_weak_tombstone = fail_iter!(self.drain_key(&head.key.user_key));
+
+                    // NOTE: ... except for a weak tombstone whose value lives in a lower level
+                    // (unless there is no lower level)
+                    if !self.evict_tombstones {
+                        self.pending = unmatched_weak_tombstone;
+                    }
                 }
             } else if head.is_tombstone() && self.evict_tombstones {
                 continue;
